@@ -266,6 +266,9 @@ void prefixFamily(Ctx& ctx, const char* sname)
 		prefixOne<S, std::vector<uint8_t>>(ctx, sname, "vector<u8>", z);
 		prefixOne<S, std::string>(ctx, sname, "string", z);
 		if (z < 40000) prefixOne<S, std::vector<uint16_t>>(ctx, sname, "vector<u16>", z);
+		if (z < 40000) prefixOne<S, std::u16string>(ctx, sname, "u16string", z);
+		if (z < 40000) prefixOne<S, std::wstring>(ctx, sname, "wstring", z);
+		if (z < 40000) prefixOne<S, std::vector<uint64_t>>(ctx, sname, "vector<u64>", z);
 	}
 }
 
